@@ -29,10 +29,13 @@ phase, base profile); the thorough tier has more and larger configurations (3 an
 thread; 2-4 modules served by the thread of a shared io module (plain, or polled itself with pollinterval 0 / 5);
 parameters polled through read_*, ReadHandler (per key), CommonReadHandler (group), @nopoll (plain and handler), a
 configured writable parameter (writeInitParams).  The horizon of an execution is 3 x the largest interval of the
+Configurations with 'delivery': 'ops' add two more *delivery points* for an external event, at the poll thread's own
+operations on its trigger event: right before wait() looks at the flag (between the computation of the wait time and the
+sleep) and right before clear() - the places where a wake-up can be lost; events only, <= 2 deviations.
 'Events only' configurations ('devs': 'events') explore *sequences of external events* (fast on -> interval change -> fast
 off ...): <= 3 deviations, placed at wake-ups only (driver calls keep their default answer and are not deviation points),
 extended event alphabet, horizon EVENT_CAP = 36 choice points.  The horizon of an execution is 3 x the largest interval of the
-configuration in virtual time, and at most CAP (44 quick / 64 thorough) choice points (a saturated thread or fast
+configuration in virtual time, and at most CAP (42 quick / 64 thorough) choice points (a saturated thread or fast
 polling would otherwise make one execution arbitrarily long).
 
 The node is built once per shard through vf.nodes.Node (real Server._processCfg, start=False so that no thread is
@@ -733,11 +736,10 @@ def configs(tier):
         add(layout, ivals, devs='events', events='ext', bound=3, cap=EVENT_CAP)
     # external events landing at the thread's own operations on the trigger event (right before wait() looks at the flag,
     # right before clear()), i.e. between the computation of the wait time and the sleep: <= 2 deviations, events only
-    for layout, ivals in (('S', [(5, 15)]), ('S', [(1, 2)])):
+    for layout, ivals in (('S', [(5, 15)]), ('S', [(1, 2)]), ('io+S+T', [(5, 2), (1, 2)])):
         add(layout, ivals, devs='events', events='ext', delivery='ops', bound=2, cap=EVENT_CAP)
     if tier != 'quick':
         add('io+S+T', [(5, 2), (1, 2)], devs='events', events='ext', bound=3, cap=EVENT_CAP)
-        add('io+S+T', [(5, 2), (1, 2)], devs='events', events='ext', delivery='ops', bound=2, cap=EVENT_CAP)
         add('IO+S', [(5, 15), (1, 2)], devs='events', events='ext', delivery='ops', bound=2, cap=EVENT_CAP)
         add('IO+S', [(5, 15), (1, 2)], phase=0)
         add('S', [(0.1, 2)])
@@ -773,7 +775,7 @@ def configs(tier):
 def bounds(tier):
     """cap = horizon in choice points; window = how far behind the 2nd deviation the 3rd may lie (configurations with
     bound 3, thorough only)"""
-    return dict(cap=44, window=3, nshards=16) if tier == 'quick' else dict(cap=64, window=3, nshards=32)
+    return dict(cap=42, window=3, nshards=16) if tier == 'quick' else dict(cap=64, window=3, nshards=32)
 
 
 def explore(cfg, shard, b, part, only_forced=None):
@@ -870,7 +872,8 @@ def run(ctx):
                            'events only)' if deep else ''),
                         layouts=sorted({c['layout'] for c in cfgs}))
     ctx.assume('durations, outcomes, intervals and events outside the stated alphabets are not covered',
-               'external events happen while the thread sleeps (after a quarter of the sleep), never during a driver call',
+               'external events happen while the thread sleeps (after a quarter of the sleep) or - delivery=ops configurations - '
+               'right before the wait()/clear() operations of the thread on its trigger event; never during a driver call',
                'loop overhead is 1 us per clock reading',
                'KeyboardInterrupt / SystemExit are not injected')
 
